@@ -21,7 +21,7 @@ func init() {
 		Assumptions: []string{"Go crypto primitives and math/big are correct (shared with go-cose)", "header values stay inside the input model of DESIGN 2.2", "RSA keys come from a committed pool of three test keys"},
 		Real:        []string{"github.com/veraison/go-cose (all of it)", "github.com/fxamacker/cbor/v2", "Go crypto (ecdsa, rsa, ed25519, sha2)"},
 		Stubs:       []string{"entropy source (seeded reader)", "wire between issuer, notary and verifier (byte copy)", "key directory (COSE_Key bytes in memory)"},
-		QuickRuns:   6000, ThoroughRuns: 120000,
+		QuickRuns:   60000, ThoroughRuns: 1200000,
 	}
 }
 
